@@ -8,6 +8,7 @@ import (
 	"io"
 	"strings"
 	"testing"
+	"unicode/utf8"
 
 	"github.com/moorara/algo/lexer"
 	"pgregory.net/rapid"
@@ -134,6 +135,15 @@ func TestTransitionFunctionExhaustive(t *testing.T) {
 
 type input struct {
 	Text string `json:"text"`
+	Raw  []byte `json:"raw,omitempty"` // the text when it is not UTF-8 (JSON strings cannot carry it)
+}
+
+func mkInput(text string) input {
+	in := input{Text: text}
+	if !utf8.ValidString(text) {
+		in.Raw = []byte(text)
+	}
+	return in
 }
 
 type tokRec struct {
@@ -178,6 +188,33 @@ func checkText(text string) error {
 	if err != nil {
 		return fmt.Errorf("text %q: %v", text, err)
 	}
+	if bad, bl, bc, ok := ref.FirstInvalidUTF8(text); ok && werr != nil && werr.Off+len([]rune(werr.Text)) == bad {
+		// the run is ended by a byte sequence that is not UTF-8: the reader reports it where it stands.  Whether a
+		// lexeme that this byte ends is still delivered, and whether an unfinished lexeme is reported at its start or
+		// at the byte, is not stated; tokens that end earlier and the presence and place of the error are.
+		required := 0
+		for _, w := range want {
+			if w.Off+len([]rune(w.Src)) < bad {
+				required++
+			}
+		}
+		if len(got) < required || len(got) > len(want) {
+			return fmt.Errorf("text %q: %d tokens before the invalid byte sequence at %d:%d, the documented scanner yields %d (%d of them end before it)", text, len(got), bl, bc, len(want), required)
+		}
+		for i, g := range got {
+			w := want[i]
+			if w.Kind != g.Kind || w.Lexeme != g.Lexeme || w.Off != g.Off || w.Line != g.Line || w.Col != g.Col {
+				return fmt.Errorf("text %q: token %d is %s %q at %d:%d, the documented scanner yields %s %q at %d:%d", text, i, g.Kind, g.Lexeme, g.Line, g.Col, w.Kind, w.Lexeme, w.Line, w.Col)
+			}
+		}
+		if gerr == "" {
+			return fmt.Errorf("text %q: the byte sequence at %d:%d is not UTF-8, but the scanner reaches the end of the input without an error", text, bl, bc)
+		}
+		if !rec.MentionsPos(gerr, "t.ebnf", bl, bc) && !rec.MentionsPos(gerr, "t.ebnf", werr.Line, werr.Col) {
+			return fmt.Errorf("text %q: the error is reported as %q; the invalid byte sequence is at t.ebnf:%d:%d, the lexeme it ends starts at t.ebnf:%d:%d", text, gerr, bl, bc, werr.Line, werr.Col)
+		}
+		return nil
+	}
 	for i := 0; i < len(want) || i < len(got); i++ {
 		if i >= len(got) {
 			return fmt.Errorf("text %q: token %d is missing: the documented scanner yields %s %q at %d:%d (scanner stopped with %q)", text, i, want[i].Kind, want[i].Lexeme, want[i].Line, want[i].Col, gerr)
@@ -213,7 +250,7 @@ var validPieces = []string{"=", ";", "|", "(", ")", "[", "]", "{", "}", "{{", "}
 	`/a/`, `/[a-z]+/`, `/a\/b/`, `/\//`, `/ /`, `/a*\//`, `/\\/`, `/x\*/`, `/(#|\/\/)/`, `/"([^"])*"/`,
 	"// comment", "//", "// a */ b", "//*", "/* c */", "/**/", "/***/", "/* * */", "/* a **/", "/* a\n b */", "/*/*/", "/* // */", "/*\t*\r\n*/"}
 
-var nearMisses = []string{"@lef", "@leftx", "@", "@Left", "$a", "$", "$1", `""`, `"abc`, `"a b"`, `"\`, "'x'", "/abc", "/ab\n/", "/* open", "/*/", "#", "%", "!", "\\", "^", "~", "`", ",", ".", ":", "?", "&", "+", "-", "*", "é", "\x0c", "\x01", "\x7f", "A", "_a", "9a", "a-b", "{{{", "}}}", "/*", "/"}
+var nearMisses = []string{"@lef", "@leftx", "@", "@Left", "$a", "$", "$1", `""`, `"abc`, `"a b"`, `"\`, "'x'", "/abc", "/ab\n/", "/* open", "/*/", "#", "%", "!", "\\", "^", "~", "`", ",", ".", ":", "?", "&", "+", "-", "*", "é", "\x0c", "\x01", "\x7f", "A", "_a", "9a", "a-b", "{{{", "}}}", "/*", "/", "\xff", "\xc3(", "ab\xfe", "\xe4\xb8"}
 
 var separators = []string{" ", "  ", "\t", "\n", "\r\n", "\n\n", " \t ", "\r", ""}
 
@@ -223,6 +260,7 @@ func TestTokenStreams(t *testing.T) {
 	rec.Check(t, 12000, 600000, func(t *rapid.T) {
 		n := rapid.IntRange(0, 14).Draw(t, "pieces")
 		var b strings.Builder
+		b.WriteString(rapid.SampledFrom([]string{"", "", " ", "\n\n", "\t", "\r\n ", "\f", "\u00a0"}).Draw(t, "lead"))
 		comments, misses := 0, 0
 		for i := 0; i < n; i++ {
 			k := rapid.IntRange(0, 9).Draw(t, "k")
@@ -263,7 +301,7 @@ func TestTokenStreams(t *testing.T) {
 			rec.Sample(strings.Join(cls, ","), text)
 		}
 		if err := checkText(text); err != nil {
-			rec.Fail(t, "text", input{Text: text}, "%v", err)
+			rec.Fail(t, "text", mkInput(text), "%v", err)
 		}
 	})
 }
@@ -277,7 +315,7 @@ func TestArbitraryPrintableTexts(t *testing.T) {
 		want, werr, _ := scanner.Scan(text)
 		rec.Case(text, len(want) >= 3 && werr != nil, "arbitrary")
 		if err := checkText(text); err != nil {
-			rec.Fail(t, "text", input{Text: text}, "%v", err)
+			rec.Fail(t, "text", mkInput(text), "%v", err)
 		}
 	})
 }
@@ -293,6 +331,9 @@ func TestReplay(t *testing.T) {
 	var in input
 	if err := json.Unmarshal(raw, &in); err != nil {
 		t.Fatal(err)
+	}
+	if in.Raw != nil {
+		in.Text = string(in.Raw)
 	}
 	if err := checkText(in.Text); err != nil {
 		rec.Fail(t, "text", in, "%v", err)
